@@ -471,9 +471,9 @@ class Controller:
 
     @property
     def lmp_features_bytes(self) -> bytes:
-        return self.lmp_features.to_bytes(
-            (self.lmp_features_max_page_number + 1) * 8, 'little'
-        )
+        size = (self.lmp_features_max_page_number + 1) * 8
+        # Only the pages that this controller reports
+        return (self.lmp_features & ((1 << (8 * size)) - 1)).to_bytes(size, 'little')
 
     # Packet Sink protocol (packets coming from the host via HCI)
     def on_packet(self, packet: bytes) -> None:
